@@ -234,6 +234,10 @@ func init() {
 			m.frozenSched = true
 			return nil
 		},
+		"thawSchedule": func(m *Machine, c *frame, f *ssa.Function, a []Value) Value {
+			m.frozenSched = false
+			return nil
+		},
 		"blockedThreads": func(m *Machine, c *frame, f *ssa.Function, a []Value) Value {
 			n := 0
 			for _, t := range m.threads {
